@@ -142,7 +142,7 @@ func cotCase(o *hxlib.Out, r *hxlib.Rng, idx int, seed uint64, kind string, mal,
 				o.Fail("c06-nonshared-reinit-accepted", map[string]any{"case": idx, "replay": replay, "config": cfg})
 			}
 		}
-		oracleDelivers(o, "cot", idx, replay, i, cfg, b.flags, res[i].swires, res[i].rcvd, b.ckind)
+		oracleDelivers(o, map[string]string{"c": "cot", "r": "rot"}[kind], idx, replay, i, cfg, b.flags, res[i].swires, res[i].rcvd, b.ckind)
 		if kind == "c" {
 			// COT must not change the caller's wires
 			for j := range b.wires {
@@ -197,7 +197,7 @@ func oracleDelivers(o *hxlib.Out, impl string, idx int, replay string, bi int, c
 		o.Fail("c06-delivers", map[string]any{"impl": impl, "case": idx, "replay": replay, "batch": bi, "n": n,
 			"config": cfg, "wrong": wrong, "got_unchosen_label": other, "first_wrong": first, "choices": ckind,
 			"choice": flags[first], "L0": wires[first].L0.String(), "L1": wires[first].L1.String(),
-			"rcvd": rcvd[first].String(),
+			"rcvd":  rcvd[first].String(),
 			"n_mod": fmt.Sprintf("8:%d 64:%d 128:%d 512:%d", n%8, n%64, n%128, n%512)})
 		return false
 	}
@@ -230,8 +230,10 @@ func cotMode(args []string) int {
 		var batches []cbatch
 		for j := 0; j < nb; j++ {
 			n := genN(r, 4*512)
-			if j == 0 && i/4 < len(sweepSizes) {
-				n = sweepSizes[(i/4+7*(i%4))%len(sweepSizes)]
+			if j == 0 && i < 2*len(sweepSizes) {
+				// boundary sizes first, in an order that reaches small and
+				// multi-chunk sizes within the first few dozen cases
+				n = sweepSizes[(i*13+5)%len(sweepSizes)]
 			}
 			if j > 0 && r.Intn(3) > 0 {
 				n = genN(r, 300)
